@@ -7,7 +7,7 @@
    mirror the C++ code; Spec functions (C10.Spec) are positional notation and the
    [charconv] / C strtol / [string.conversions] contracts. *)
 From Tetl Require Import Lib.Base C10.Model C10.Spec C10.Digits C10.ProofsFmt C10.ProofsParse
-  C10.ProofsRT C10.ProofsNc C10.ProofsStrto C10.ProofsStrtoC C10.Refuted.
+  C10.ProofsRT C10.ProofsNc C10.ProofsStrto C10.ProofsStrtoC C10.ProofsRTStrto C10.Refuted.
 Local Open Scope Z_scope.
 
 (** ** The specification's numeral is positional notation (spec sanity) *)
@@ -157,6 +157,20 @@ Proof.
   - exact (sto_no_throw t s b Hw Hb E).
 Qed.
 Print Assumptions C10_sto_correct.
+
+(* round trip through the strtol family: the text of v (to_chars / to_string) parses to v, the end
+   pointer is behind the last character and the error member is none *)
+Theorem C10_strto_roundtrip : forall t v b, in_ty t v = true -> 2 <= b <= 36 ->
+  (8 <= bits t -> strto_spec t b (to_text b v) = (v, length (to_text b v)) /\ strto_class t b (to_text b v) = SOk)
+  /\ forall buf, cxx_width (bits t) -> (length (to_text b v) <= length buf)%nat ->
+     exists n buf', to_chars_m t v b buf = Ok (false, n, buf')
+                    /\ strto_integer_m t (firstn n buf') b = Ok (n, TiNone, v).
+Proof.
+  intros t v b Hv Hb. split.
+  - intros Hbits. exact (strto_spec_roundtrip t v b Hbits Hv Hb).
+  - intros buf Hw Hlen. exact (strto_roundtrip t v b buf Hw Hv Hb Hlen).
+Qed.
+Print Assumptions C10_strto_roundtrip.
 
 (** ** atoi atol atoll: the value of strtol(s, NULL, 10) whenever it is representable *)
 Theorem C10_ato_correct : forall t s v, 8 <= bits t -> sgn t = true -> ato_spec t s = Some v ->
